@@ -16,9 +16,22 @@ import (
 type AbsEval struct {
 	Info *types.Info
 	Atom func(e ast.Expr) (any, bool)
-	vars map[*types.Var]any
+	// Branch, when set, turns a break/continue into an outcome (values returned
+	// by Run); without it such statements cannot be evaluated.
+	Branch func(b *ast.BranchStmt) ([]any, bool)
+	vars   map[*types.Var]any
 
 	preset map[*types.Var]any
+}
+
+// RunList executes a statement list (e.g. a loop body for one element); the
+// second result tells whether an outcome (return or Branch) was reached.
+func (a *AbsEval) RunList(list []ast.Stmt) ([]any, bool, bool) {
+	a.vars = map[*types.Var]any{}
+	for k, v := range a.preset {
+		a.vars[k] = v
+	}
+	return a.exec(list)
 }
 
 // Set gives a variable an initial value (before Run).
@@ -153,7 +166,14 @@ func (a *AbsEval) exec(list []ast.Stmt) ([]any, bool, bool) {
 				}
 			}
 		case *ast.DeclStmt, *ast.ExprStmt, *ast.EmptyStmt, *ast.IncDecStmt:
-		case *ast.ForStmt, *ast.RangeStmt, *ast.TypeSwitchStmt, *ast.SelectStmt, *ast.GoStmt, *ast.DeferStmt, *ast.BranchStmt:
+		case *ast.BranchStmt:
+			if a.Branch != nil {
+				if v, ok := a.Branch(x); ok {
+					return v, true, true
+				}
+			}
+			return nil, false, false
+		case *ast.ForStmt, *ast.RangeStmt, *ast.TypeSwitchStmt, *ast.SelectStmt, *ast.GoStmt, *ast.DeferStmt:
 			return nil, false, false
 		}
 	}
